@@ -597,6 +597,258 @@ fn check_trace(plan: &[Item], prefix: &[Sig], bursts: &[Vec<Sig>]) -> Result<(us
 }
 
 // ------------------------------------------------------------------------------------------------
+// real interleavings as abstract schedules
+
+/// Enter / exit of an engine → adapter call (`resolve_starting_vertices` is not logged: it has no input).
+#[derive(Debug, Clone, PartialEq)]
+enum Ev {
+    Enter(Sig),
+    Exit,
+}
+
+type SpanLog = Rc<RefCell<Vec<Ev>>>;
+
+/// Outermost wrapper: brackets every resolver call of the engine in the log. Whatever the wrapped
+/// (batching) adapter pulls *during* the call shows up nested between the two marks.
+struct SpanAdapter<A> {
+    inner: A,
+    log: SpanLog,
+}
+
+impl<A: Adapter<'static> + 'static> Adapter<'static> for SpanAdapter<A>
+where
+    A::Vertex: 'static,
+{
+    type Vertex = A::Vertex;
+
+    fn resolve_starting_vertices(
+        &self,
+        edge_name: &Arc<str>,
+        parameters: &EdgeParameters,
+        resolve_info: &ResolveInfo,
+    ) -> VertexIterator<'static, Self::Vertex> {
+        self.inner.resolve_starting_vertices(edge_name, parameters, resolve_info)
+    }
+    fn resolve_property<V: AsVertex<Self::Vertex> + 'static>(
+        &self,
+        contexts: ContextIterator<'static, V>,
+        type_name: &Arc<str>,
+        property_name: &Arc<str>,
+        resolve_info: &ResolveInfo,
+    ) -> ContextOutcomeIterator<'static, V, FieldValue> {
+        self.log.borrow_mut().push(Ev::Enter((CallKind::Property, vid_num(resolve_info.vid()))));
+        let r = self.inner.resolve_property(contexts, type_name, property_name, resolve_info);
+        self.log.borrow_mut().push(Ev::Exit);
+        r
+    }
+    fn resolve_neighbors<V: AsVertex<Self::Vertex> + 'static>(
+        &self,
+        contexts: ContextIterator<'static, V>,
+        type_name: &Arc<str>,
+        edge_name: &Arc<str>,
+        parameters: &EdgeParameters,
+        resolve_info: &ResolveEdgeInfo,
+    ) -> ContextOutcomeIterator<'static, V, VertexIterator<'static, Self::Vertex>> {
+        self.log.borrow_mut().push(Ev::Enter((CallKind::Neighbors, vid_num(resolve_info.origin_vid()))));
+        let r = self.inner.resolve_neighbors(contexts, type_name, edge_name, parameters, resolve_info);
+        self.log.borrow_mut().push(Ev::Exit);
+        r
+    }
+    fn resolve_coercion<V: AsVertex<Self::Vertex> + 'static>(
+        &self,
+        contexts: ContextIterator<'static, V>,
+        type_name: &Arc<str>,
+        coerce_to_type: &Arc<str>,
+        resolve_info: &ResolveInfo,
+    ) -> ContextOutcomeIterator<'static, V, bool> {
+        self.log.borrow_mut().push(Ev::Enter((CallKind::Coercion, vid_num(resolve_info.vid()))));
+        let r = self.inner.resolve_coercion(contexts, type_name, coerce_to_type, resolve_info);
+        self.log.borrow_mut().push(Ev::Exit);
+        r
+    }
+}
+
+/// One engine → adapter call and the calls nested inside it.
+#[derive(Debug)]
+struct Node {
+    sig: Sig,
+    children: Vec<Node>,
+}
+
+fn forest(evs: &[Ev]) -> Option<Vec<Node>> {
+    let mut stack: Vec<Vec<Node>> = vec![vec![]];
+    let mut open: Vec<Sig> = vec![];
+    for e in evs {
+        match e {
+            Ev::Enter(sig) => {
+                open.push(*sig);
+                stack.push(vec![]);
+            }
+            Ev::Exit => {
+                let children = stack.pop()?;
+                let sig = open.pop()?;
+                stack.last_mut()?.push(Node { sig, children });
+            }
+        }
+    }
+    if stack.len() == 1 { stack.pop() } else { None }
+}
+
+/// "stop pulling": any choice that is not the index of a closure
+const STOP: u64 = 1_000_000;
+
+fn own_closures(items: &[Item]) -> Vec<&[Item]> {
+    items.iter().filter_map(|it| if let Item::Clo(b) = it { Some(b.as_slice()) } else { None }).collect()
+}
+
+/// The grammar the carrier machine assigns to call logs:
+///   pipeline(items)  = for every call item, one node per adapter call, whose children are a window over the
+///                      closures created so far
+///   window(closures) = a sequence of activations of those closures
+///   activation(c)    = pipeline(body of c) followed by a window over the closures of that body (the drain)
+/// Every function returns, per reachable end position, the abstract schedule tokens of one parse.
+fn parse_pipeline(items: &[Item], nodes: &[Node], mut pos: usize) -> Option<(usize, Vec<u64>)> {
+    let mut cs: Vec<&[Item]> = vec![];
+    let mut out = vec![];
+    for it in items {
+        match it {
+            Item::Call(site, vids) => {
+                for v in vids {
+                    let n = nodes.get(pos)?;
+                    if n.sig != (site_kind(site), *v) {
+                        return None;
+                    }
+                    let w = parse_window(&cs, &n.children, 0);
+                    out.extend(w.get(&n.children.len())?.iter().copied());
+                    out.push(STOP);
+                    pos += 1;
+                }
+            }
+            Item::Peek(_) => {}
+            Item::Clo(body) => cs.push(body),
+        }
+    }
+    Some((pos, out))
+}
+
+fn parse_activation(body: &[Item], nodes: &[Node], pos: usize) -> BTreeMap<usize, Vec<u64>> {
+    let Some((p1, toks)) = parse_pipeline(body, nodes, pos) else { return BTreeMap::new() };
+    let inner = own_closures(body);
+    parse_window(&inner, nodes, p1)
+        .into_iter()
+        .map(|(end, t)| {
+            let mut all = toks.clone();
+            all.extend(t);
+            all.push(STOP);
+            (end, all)
+        })
+        .collect()
+}
+
+fn parse_window(cs: &[&[Item]], nodes: &[Node], pos: usize) -> BTreeMap<usize, Vec<u64>> {
+    let mut reach: BTreeMap<usize, Vec<u64>> = BTreeMap::new();
+    reach.insert(pos, vec![]);
+    let mut todo = vec![pos];
+    while let Some(p) = todo.pop() {
+        if p >= nodes.len() {
+            continue;
+        }
+        for (i, body) in cs.iter().enumerate() {
+            for (end, toks) in parse_activation(body, nodes, p) {
+                if end > p && !reach.contains_key(&end) {
+                    let mut all = reach[&p].clone();
+                    all.push(i as u64);
+                    all.extend(toks);
+                    reach.insert(end, all);
+                    todo.push(end);
+                }
+            }
+        }
+    }
+    reach
+}
+
+/// The abstract schedule of one real run: `construction` = the calls logged before `interpret_ir`
+/// returned, `consumption` = those logged while the rows were collected.
+fn abstract_schedule(plan: &[Item], construction: &[Ev], consumption: &[Ev]) -> Result<Vec<u64>, String> {
+    let built = forest(construction).ok_or("unbalanced-construction-log")?;
+    let pulled = forest(consumption).ok_or("unbalanced-consumption-log")?;
+    let (end, mut toks) = parse_pipeline(plan, &built, 0).ok_or("construction-does-not-parse")?;
+    if end != built.len() {
+        return Err("calls-after-construct-outputs".to_string());
+    }
+    let root = own_closures(plan);
+    let w = parse_window(&root, &pulled, 0);
+    toks.extend(w.get(&pulled.len()).ok_or("consumption-does-not-parse")?.iter().copied());
+    toks.push(STOP);
+    Ok(toks)
+}
+
+/// Run the real engine under one batching schedule with the span log; `None` when it panics or the
+/// arguments are rejected.
+fn traced_run(p: &crate::engine::run::Prepared, q: &Arc<IndexedQuery>, args: &BTreeMap<String, FieldValue>, s: &Sched) -> Option<(Vec<Ev>, Vec<Ev>)> {
+    let log: SpanLog = Rc::new(RefCell::new(vec![]));
+    let adapter = Arc::new(SpanAdapter { inner: BatchingAdapter::new(Rc::new(p.adapter()), s.clone()), log: log.clone() });
+    let split = guarded(|| match interpret_ir(adapter, q.clone(), real_args(args)) {
+        Err(_) => None,
+        Ok(rows) => {
+            let n = log.borrow().len();
+            rows.for_each(drop);
+            Some(n)
+        }
+    })
+    .ok()??;
+    let evs = log.borrow();
+    Some((evs[..split].to_vec(), evs[split..].to_vec()))
+}
+
+/// `(abs n…)` of a real run, or the reason it cannot be given.
+fn abs_of(p: &crate::engine::run::Prepared, q: &Arc<IndexedQuery>, args: &BTreeMap<String, FieldValue>, s: &Sched) -> Result<Vec<u64>, String> {
+    let (built, pulled) = traced_run(p, q, args, s).ok_or("run-failed")?;
+    abstract_schedule(&plan_of(&q.ir_query), &built, &pulled)
+}
+
+fn abs_sexp(toks: &[u64]) -> Sexp {
+    Sexp::call("abs", toks.iter().map(|t| Sexp::atom(t.to_string())).collect())
+}
+
+/// `(carrier-trace <schema> <data> <text> <ir> <args> <batching schedule> (abs n…))`: the real run under
+/// that schedule, read as an abstract schedule of the carrier machine, is the one in the request; the
+/// answer states what the machine must do with it: serve every activation, read it to the end.
+fn eval_carrier_trace(args: &[Sexp]) -> Option<String> {
+    let [head @ .., sched, abs] = args else { return None };
+    let r = parse_request(head)?;
+    let sched = Sched::from_sexp(sched)?;
+    let p = prepare(r.schema, r.data, &r.text)?;
+    let q = match &p.query {
+        Err(names) => return Some(Answer::FrontendErr(names.clone()).render()),
+        Ok(q) => q.clone(),
+    };
+    if ir_to_sexp(&q.ir_query) != *r.ir {
+        return Some("(ir-mismatch)".to_string());
+    }
+    match abs_of(&p, &q, &r.args, &sched) {
+        Err(why) => Some(format!("(trace-mismatch {why})")),
+        Ok(toks) => {
+            if abs_sexp(&toks) != *abs {
+                return Some("(trace-mismatch abstract-schedule-differs-from-request)".to_string());
+            }
+            let acts = toks.iter().filter(|t| **t != STOP).count();
+            ABS_STATS.with(|c| {
+                let (n, a, nested) = c.get();
+                c.set((n + 1, a + acts as u64, nested));
+            });
+            Some(format!("(trace ok {acts} 0)"))
+        }
+    }
+}
+
+thread_local! {
+    /// (traces translated, closure activations in them, unused)
+    static ABS_STATS: Cell<(u64, u64, u64)> = const { Cell::new((0, 0, 0)) };
+}
+
+// ------------------------------------------------------------------------------------------------
 // requests
 
 struct EngineRequest<'a> {
@@ -951,6 +1203,39 @@ fn unbatched_exceeds(req: &Sexp, limit: usize) -> bool {
     .unwrap_or(false)
 }
 
+/// `carrier-trace` requests of one (dataset, query): the real run under a few batching schedules, each
+/// translated into an abstract schedule that the request carries for the Lean machine.
+fn trace_cases(base_req: &Sexp, tags: &[String], rng: &mut Rng, n_rand: usize) -> Vec<Case> {
+    let Some((_, args)) = base_req.as_call() else { return vec![] };
+    let Some(r) = parse_request(args) else { return vec![] };
+    let Some(p) = prepare(r.schema, r.data, &r.text) else { return vec![] };
+    let Ok(q) = &p.query else { return vec![] };
+    let q = q.clone();
+    let fixed = std_schedules();
+    // the #205 schedule, chunks 1,2,3,4 on both sides, everything pre-fetched on both sides
+    let mut scheds = vec![fixed[1].clone(), fixed[6].clone(), fixed[9].clone()];
+    scheds.extend(rand_schedules(rng.next_u64() >> 1, n_rand));
+    let mut out = vec![];
+    for s in scheds {
+        // a run that fails (known engine panics) has no complete trace
+        let Some(_) = traced_run(&p, &q, &r.args, &s) else { continue };
+        let toks = abs_of(&p, &q, &r.args, &s).unwrap_or_default();
+        let mut req = base_req.clone();
+        if let Sexp::List(v) = &mut req {
+            v.push(s.to_sexp());
+            v.push(abs_sexp(&toks));
+        }
+        let mut t = tags.to_vec();
+        t.push("trace".to_string());
+        let acts = toks.iter().filter(|x| **x != STOP).count();
+        if acts > 0 {
+            t.push("nt:trace+activations".to_string());
+        }
+        out.push(Case { request: req, tags: t });
+    }
+    out
+}
+
 fn scheds_spec(seed: u64, n_rand: usize) -> Sexp {
     Sexp::call(
         "scheds",
@@ -1036,6 +1321,11 @@ impl Prop for C02 {
                         v.push(scheds_spec(rng.next_u64() >> 1, n_rand));
                     }
                     out.push(Case { request: req, tags: tags.clone() });
+                    if q.gq.features.contains("fold") {
+                        if let Some(base_req) = w.request("carrier-trace", d, q) {
+                            out.extend(trace_cases(&base_req, &tags, rng, if tier == Tier::Quick { 1 } else { 4 }));
+                        }
+                    }
                     let Some(plan) = w.request("plan", d, q) else { continue };
                     let mut t = tags.clone();
                     t.push("plan".to_string());
@@ -1055,6 +1345,7 @@ impl Prop for C02 {
             "batch-exec" => eval_batch_exec(args),
             "batch-numbers" => eval_batch_numbers(args),
             "plan" => eval_plan(args),
+            "carrier-trace" => eval_carrier_trace(args),
             "plan-numbers" => eval_plan_numbers(args),
             "chunk" => eval_chunk(args),
             _ => None,
@@ -1089,7 +1380,11 @@ impl Prop for C02 {
                     *last = Sexp::call("scheds", sched.iter().cloned().collect());
                 }
             }
-            let query = e.request.as_call().and_then(|(_, a)| a.get(2)).and_then(|t| t.as_atom()).and_then(unhex).and_then(|b| String::from_utf8(b).ok());
+            let query = match e.request.as_call() {
+                Some(("batch-numbers", [stem, ..])) => stem.as_atom().map(|s| format!("numbers test query {s}")),
+                Some((_, a)) => a.get(2).and_then(|t| t.as_atom()).and_then(unhex).and_then(|b| String::from_utf8(b).ok()),
+                None => None,
+            };
             let sched_text = sched.map(|s| s.to_string()).unwrap_or_else(|| "none (unbatched run)".to_string());
             out.push(OracleFailure {
                 key,
@@ -1139,6 +1434,7 @@ impl Prop for C02 {
             "skipped_results_over_row_limit": {"limit": GENERATOR_ROW_LIMIT, "skipped": self.skipped_large.get()},
             "fixed_schedules": std_schedules().iter().map(|s| s.to_sexp().to_string()).collect::<Vec<_>>(),
             "batched_executions": BATCHED_RUNS.with(|c| c.get()),
+            "real_interleavings_as_abstract_schedules": {"traces": ABS_STATS.with(|c| c.get().0), "closure_activations": ABS_STATS.with(|c| c.get().1)},
             "trace_conformance": {"plan_requests_with_conforming_log": checked, "closure_bursts_matched": bursts, "closure_bodies_seen": distinct},
         })
     }
